@@ -23,6 +23,7 @@ META = {
     ],
     "floor_evaluations": {"quick": 2000, "thorough": 20000},
     "floor_nontrivial": {"quick": 800, "thorough": 8000},
+    "threads": 3,
     "anchors": ["func_adl/ast/function_simplifier.py"],
 }
 
